@@ -6,6 +6,8 @@ import CogentModel.Model.Suffixes
 import CogentModel.Gen.C06Dispatch
 import CogentModel.Model.GenBankLoc
 import CogentModel.Spec.SeqRecords
+import CogentModel.Model.Clustal
+import CogentModel.Spec.ClustalRecords
 open CogentModel CogentModel.Splitlines CogentModel.SeqFormats
 
 def errStr : Err → String
@@ -86,6 +88,7 @@ def handle (cmd : String) (j : J) : Except String J :=
     | "gde" => pure (exJ recsJ (strictParser ['%', '#'] ls))
     | "paml" => pure (exJ recsJ (pamlParser ls))
     | "phylip" => pure (exJ recsJ (phylipParser ls))
+    | "aln" => pure (exJ recsJ (Clustal.clustalParser true ls))
     | p => throw s!"unknown parser {p}"
   | "fasta_format" => do
     -- recs: [[name, [line, ...]], ...] (lines as produced by the external textwrap.wrap)
@@ -122,6 +125,20 @@ def handle (cmd : String) (j : J) : Except String J :=
     let lc ← getStr j "lc"
     pure (J.obj [("wfName", J.bool (SeqSpec.wfName s)), ("wfSeq", J.bool (SeqSpec.wfSeq lc s)),
                  ("noLower", J.bool (SeqSpec.noLower s)), ("truncName", strJ (SeqSpec.truncName s))])
+  | "clustal_format" => do
+    -- clustal_from_alignment(dict(recs), wrap) with the records in output order (the code sorts a dict's keys)
+    let wrap ← (← j.get "wrap").toOptInt
+    pure (exJ strJ (Clustal.clustalFormat (wrap.map Int.toNat) (← getRecs j "recs")))
+  | "clustal_parse" => do
+    pure (exJ recsJ (Clustal.clustalParser (← (← j.get "strict").toBool) (← getLines j "lines")))
+  | "clustal_line" => do
+    -- the line level pieces of parse/clustal.py
+    let l ← getStr j "line"
+    pure (J.obj [("is_seq_line", J.bool (Clustal.isSeqLine l)), ("delete_trailing_number", strJ (Clustal.deleteTrailingNumber l)),
+                 ("last_space", linesJ (Clustal.lastSpace (Clustal.rstrip l)))])
+  | "clustal_spec" => do
+    let s ← getStr j "s"
+    pure (J.obj [("clustalName", J.bool (ClustalSpec.clustalName s)), ("clustalSeq", J.bool (ClustalSpec.clustalSeq s))])
   | _ => throw s!"unknown command {cmd}"
 
 def main : IO Unit := driverLoop handle
